@@ -301,13 +301,30 @@ Proof.
   change (var_q (stf l s x :: map (stf l s) t)) with (var_q (map (stf l s) (x :: t))).
   rewrite !Qred_correct, var_stf by exact Hs. field. exact Hs.
 Qed.
-Lemma tmean_is_location (raw : list oq) (l s : oq) : c_mean true (col_from_numpy raw l s) = Some l.
-Proof. reflexivity. Qed.
-(** with the exact location and no missing value, tmean on the original scale is the raw mean *)
-Lemma tmean_commutes (raw : list oq) (l : Q) (s : oq) v : allsome raw = Some v -> v <> [] -> l == mean_q v ->
-  ooeq (c_mean true (col_from_numpy raw (Some l) s)) (Some (np_mean raw)).
+(** mean on the original scale = (numpy) mean of the raw column, for every location and every non-zero scale:
+    NaN as soon as a value is missing or the column is empty, like every other summary *)
+Lemma tmean_commutes (raw : list oq) (l s : Q) : ~ s == 0 ->
+  ooeq (c_mean true (col_from_numpy raw (Some l) (Some s))) (Some (np_mean raw)).
 Proof.
-  intros Ha Hv Hl. unfold c_mean, np_mean. rewrite Ha. destruct v as [|x t]; [congruence|]. exact Hl.
+  intros Hs. unfold c_mean, np_mean. cbv zeta. rewrite stored_omapf, allsome_map.
+  destruct (allsome raw) as [[|x t]|]; try exact I.
+  unfold omap, csc, cloc, col_from_numpy, oadd, omul, olift2, ooeq, oeq. cbn [map].
+  change (mean_q (stf l s x :: map (stf l s) t)) with (mean_q (map (stf l s) (x :: t))).
+  rewrite !Qred_correct, mean_stf by exact Hs. field. exact Hs.
+Qed.
+(** in particular with a missing value: NaN, whatever location and scale *)
+Lemma allsome_map_none (f : oq -> oq) c : f None = None -> allsome c = None -> allsome (map f c) = None.
+Proof.
+  intros Hf. induction c as [|[v|] t IH]; cbn [map allsome]; intros Ha.
+  - discriminate.
+  - destruct (allsome t); [discriminate|]. rewrite IH by reflexivity. destruct (f (Some v)); reflexivity.
+  - now rewrite Hf.
+Qed.
+Lemma tmean_missing_nan (raw : list oq) (l s : oq) : allsome raw = None -> c_mean true (col_from_numpy raw l s) = Some None.
+Proof.
+  intros Ha. unfold c_mean, np_mean. cbv zeta. cbn [cdat col_from_numpy].
+  rewrite (allsome_map_none (fun x => omul (oinv s) (osub x l)) raw); [reflexivity| |exact Ha].
+  destruct (oinv s); reflexivity.
 Qed.
 
 (** the stored column is centred and has unit variance when location / scale are the exact mean / a square root of the variance *)
@@ -431,23 +448,58 @@ Proof. intros (H1 & H2 & H3 & H4). repeat split; auto using cols_eq_sym. Qed.
 Lemma raw_equiv_trans a b c : raw_equiv a b -> raw_equiv b c -> raw_equiv a c.
 Proof. intros (H1 & H2 & H3 & H4) (G1 & G2 & G3 & G4). repeat split; try congruence. eapply cols_eq_trans; eassumption. Qed.
 
-Definition op_copy (o : op) : bool :=
-  match o with OSelect _ | ODelete _ | OInsert _ _ | OAdjoin _ => true | _ => false end.
-
 Lemma chk_rel a b : raw_equiv a b -> orel raw_equiv (chk a) (chk b).
 Proof.
   intros (H1 & H2 & H3 & H4). unfold chk. rewrite H2, H3, H4.
   destruct (label_len_ok (r_n b) (r_taxa b) && label_len_ok (r_n b) (r_grp b)); [|exact I]. repeat split; assumption.
 Qed.
-Lemma chk_some a r : chk a = Some r -> r = a /\ label_len_ok (r_n a) (r_taxa a) && label_len_ok (r_n a) (r_grp a) = true.
-Proof. unfold chk. destruct (label_len_ok (r_n a) (r_taxa a) && label_len_ok (r_n a) (r_grp a)); [|discriminate]. intros [= <-]. auto. Qed.
 
-(** the raw-level step is natural in the raw values (of the state and of the operand) *)
-Lemma raw_step_rel vals1 vals2 r1 r2 o : op_copy o = true -> raw_equiv r1 r2 ->
-  (forall v, op_operand o = Some v -> cols_eq (vals1 v) (vals2 v)) ->
-  orel raw_equiv (raw_step vals1 r1 o) (raw_step vals2 r2 o).
+(** concat_taxa is natural in the values of the matrices *)
+Definition mrel (m1 m2 : cmat) : Prop :=
+  cols_eq (fst (fst (fst m1))) (fst (fst (fst m2))) /\ snd (fst (fst m1)) = snd (fst (fst m2))
+  /\ snd (fst m1) = snd (fst m2) /\ snd m1 = snd m2.
+Lemma map2_app_rel (a1 a2 b1 b2 : list (list oq)) : cols_eq a1 a2 -> cols_eq b1 b2 -> cols_eq (map2 (@app oq) a1 b1) (map2 (@app oq) a2 b2).
 Proof.
-  intros Hc (H1 & H2 & H3 & H4) Hv. destruct o; try discriminate; cbn [raw_step]; rewrite H2, H3, H4.
+  intros Ha; revert b1 b2; induction Ha as [|x y tx ty Hxy _ IH]; intros b1 b2 Hb; cbn; [constructor|].
+  destruct Hb as [|u v tu tv Huv Hb]; constructor; [now apply Forall2_app | now apply IH].
+Qed.
+Lemma concat_cols_rel t (ms1 ms2 : list cmat) : Forall2 mrel ms1 ms2 ->
+  cols_eq (concat_cols t (map (fun m : cmat => fst (fst (fst m))) ms1)) (concat_cols t (map (fun m : cmat => fst (fst (fst m))) ms2)).
+Proof.
+  induction 1 as [|m1 m2 t1 t2 Hm _ IH]; cbn [map concat_cols]; [apply cols_eq_refl|].
+  apply map2_app_rel; [exact (proj1 Hm) | exact IH].
+Qed.
+Lemma concat_raw_rel t (ms1 ms2 : list cmat) : Forall2 mrel ms1 ms2 -> orel raw_equiv (concat_raw t ms1) (concat_raw t ms2).
+Proof.
+  intros H. unfold concat_raw.
+  assert (E1 : forallb (fun m : cmat => Nat.eqb (length (fst (fst (fst m)))) t) ms1 = forallb (fun m : cmat => Nat.eqb (length (fst (fst (fst m)))) t) ms2).
+  { clear - H. induction H as [|m1 m2 t1 t2 Hm _ IH]; cbn; [reflexivity|]. rewrite IH, (F2_len _ _ _ (proj1 Hm)). reflexivity. }
+  assert (E2 : map (fun m : cmat => (snd (fst (fst m)), snd (fst m))) ms1 = map (fun m : cmat => (snd (fst (fst m)), snd (fst m))) ms2).
+  { clear - H. induction H as [|m1 m2 t1 t2 Hm _ IH]; cbn; [reflexivity|]. rewrite IH. destruct Hm as (_ & Hn & Ht & _). rewrite Hn, Ht. reflexivity. }
+  assert (E3 : map (fun m : cmat => (snd (fst (fst m)), snd m)) ms1 = map (fun m : cmat => (snd (fst (fst m)), snd m)) ms2).
+  { clear - H. induction H as [|m1 m2 t1 t2 Hm _ IH]; cbn; [reflexivity|]. rewrite IH. destruct Hm as (_ & Hn & _ & Hg). rewrite Hn, Hg. reflexivity. }
+  assert (E4 : map (fun m : cmat => snd (fst (fst m))) ms1 = map (fun m : cmat => snd (fst (fst m))) ms2).
+  { clear - H. induction H as [|m1 m2 t1 t2 Hm _ IH]; cbn; [reflexivity|]. rewrite IH. destruct Hm as (_ & Hn & _). rewrite Hn. reflexivity. }
+  rewrite E1, E2, E3, E4. destruct (forallb _ ms2); [|exact I].
+  destruct (concat_labels _ true) as [tx|]; [|exact I]. destruct (concat_labels _ false) as [gp|]; [|exact I].
+  apply chk_rel. repeat split. cbn [r_cols]. now apply concat_cols_rel.
+Qed.
+Lemma F2_map_parts (pv1 pv2 : part -> list (list oq)) (l : list part) :
+  (forall q, In q l -> cols_eq (pv1 q) (pv2 q)) ->
+  Forall2 mrel (map (fun q => (pv1 q, p_n q, p_taxa q, p_grp q)) l) (map (fun q => (pv2 q, p_n q, p_taxa q, p_grp q)) l).
+Proof.
+  induction l as [|q t IH]; intros H; cbn; constructor.
+  - repeat split. apply H. now left.
+  - apply IH. intros q' Hq. apply H. now right.
+Qed.
+
+(** the raw-level step is natural in the raw values (of the state, of the operand, of the matrices given to concat_taxa) *)
+Lemma raw_step_rel vals1 vals2 pv1 pv2 r1 r2 o : raw_equiv r1 r2 ->
+  (forall v, op_operand o = Some v -> cols_eq (vals1 v) (vals2 v)) ->
+  (forall q, In q (op_parts o) -> cols_eq (pv1 q) (pv2 q)) ->
+  orel raw_equiv (raw_step vals1 pv1 r1 o) (raw_step vals2 pv2 r2 o).
+Proof.
+  intros (H1 & H2 & H3 & H4) Hv Hq. destruct o; cbn [raw_step]; rewrite ?H2, ?H3, ?H4.
   - (* select *)
     pose proof (map_cols_rel oeq (fun c => take_l c ix) _ _ (fun c d => take_l_rel oeq c d ix) H1) as Hm.
     destruct (map_cols (fun c => take_l c ix) (r_cols r1)), (map_cols (fun c => take_l c ix) (r_cols r2)); cbn in Hm; try contradiction; [|exact I].
@@ -470,22 +522,29 @@ Proof.
     destruct (map2_cols app_opt (r_cols r1) (vals1 v)), (map2_cols app_opt (r_cols r2) (vals2 v)); cbn in Hm; try contradiction; [|exact I].
     destruct (copy_labels (r_taxa r2) (r_grp r2) v app_opt) as [[t g]|]; [|exact I].
     apply chk_rel. repeat split; assumption.
-Qed.
-
-Lemma raw_step_labels_ok vals r o r' : op_copy o = true -> raw_step vals r o = Some r' ->
-  label_len_ok (r_n r') (r_taxa r') && label_len_ok (r_n r') (r_grp r') = true.
-Proof.
-  intros Hc. destruct o; try discriminate; cbn [raw_step].
-  - destruct (map_cols _ _); [|discriminate]. destruct (olabels _ (r_taxa r)); [|discriminate]. destruct (olabels _ (r_grp r)); [|discriminate].
-    destruct (new_n _ _); [|discriminate]. intros H. apply chk_some in H as [-> H]. exact H.
-  - destruct (map_cols _ _); [|discriminate]. destruct (olabels _ (r_taxa r)); [|discriminate]. destruct (olabels _ (r_grp r)); [|discriminate].
-    destruct (new_n _ _); [|discriminate]. intros H. apply chk_some in H as [-> H]. exact H.
-  - destruct (operand_usable v); [|discriminate]. destruct (map2_cols _ _ _); [|discriminate].
-    destruct (copy_labels _ _ _ _) as [[t g]|]; [|discriminate]. destruct (new_n _ _); [|discriminate].
-    intros H. apply chk_some in H as [-> H]. exact H.
-  - destruct (operand_usable v); [|discriminate]. destruct (map2_cols _ _ _); [|discriminate].
-    destruct (copy_labels _ _ _ _) as [[t g]|]; [|discriminate].
-    intros H. apply chk_some in H as [-> H]. exact H.
+  - (* remove (in place) *)
+    pose proof (map_cols_rel oeq (fun c => delete_any c o) _ _ (fun c d => delete_any_rel oeq c d o) H1) as Hm.
+    destruct (map_cols (fun c => delete_any c o) (r_cols r1)), (map_cols (fun c => delete_any c o) (r_cols r2)); cbn in Hm; try contradiction; [|exact I].
+    destruct (olabels _ (r_taxa r2)); [|exact I]. destruct (olabels _ (r_grp r2)); [|exact I].
+    destruct (new_n _ (r_n r2)); [|exact I]. apply chk_rel. repeat split; assumption.
+  - (* append (in place) *)
+    destruct (operand_usable v); [|exact I].
+    pose proof (map2_cols_rel oeq app_opt _ _ _ _ (app_opt_rel oeq) H1 (Hv v eq_refl)) as Hm.
+    destruct (map2_cols app_opt (r_cols r1) (vals1 v)), (map2_cols app_opt (r_cols r2) (vals2 v)); cbn in Hm; try contradiction; [|exact I].
+    destruct (inplace_labels (r_taxa r2) (r_grp r2) v app_opt) as [[t g]|]; [|exact I].
+    repeat split; assumption.
+  - (* incorp (in place) *)
+    destruct (operand_usable v); [|exact I].
+    pose proof (map2_cols_rel oeq (fun c x => insert_any c o x) _ _ _ _ (fun c d x y => insert_any_rel oeq c d o x y) H1 (Hv v eq_refl)) as Hm.
+    destruct (map2_cols (fun c x => insert_any c o x) (r_cols r1) (vals1 v)), (map2_cols (fun c x => insert_any c o x) (r_cols r2) (vals2 v)); cbn in Hm; try contradiction; [|exact I].
+    destruct (inplace_labels (r_taxa r2) (r_grp r2) v _) as [[t g]|]; [|exact I].
+    destruct (new_n _ (r_n r2)); [|exact I]. repeat split; assumption.
+  - (* concat *)
+    destruct all_inst; [|exact I]. rewrite (F2_len _ _ _ H1).
+    apply concat_raw_rel. apply Forall2_app.
+    + apply F2_map_parts. intros q Hin. apply Hq. cbn. apply in_or_app. now left.
+    + constructor; [repeat split; assumption|].
+      apply F2_map_parts. intros q Hin. apply Hq. cbn. apply in_or_app. now right.
 Qed.
 
 (** from_numpy followed by unscale gives back the raw columns when the parameters pass the run-time check *)
@@ -502,58 +561,73 @@ Proof.
   unfold from_numpy. destruct (_ && _); [|discriminate]. intros [= <-] Hp. unfold unscale; cbn.
   repeat split. now apply map2_from_numpy_unscale.
 Qed.
-Lemma from_numpy_some r p : label_len_ok (r_n r) (r_taxa r) && label_len_ok (r_n r) (r_grp r) = true -> params_ok (r_cols r) p = true ->
-  exists b, from_numpy r p = Some b.
+Lemma restd_unscale r p b : restd r p = Some b -> params_ok (r_cols r) p = true -> raw_equiv (unscale b) r.
 Proof.
-  intros Hl Hp. unfold from_numpy. rewrite Hl. unfold params_ok in Hp. apply andb_prop in Hp as [Hp _]. rewrite Hp. cbn. eauto.
+  unfold restd. destruct (Nat.eqb _ _); [|discriminate]. intros [= <-] Hp. unfold unscale; cbn.
+  repeat split. now apply map2_from_numpy_unscale.
 Qed.
+Lemma restd_some r p : params_ok (r_cols r) p = true -> exists b, restd r p = Some b.
+Proof. intros Hp. unfold restd. unfold params_ok in Hp. apply andb_prop in Hp as [Hp _]. rewrite Hp. eauto. Qed.
 Lemma opd_unscaled_raw v : opd_params_ok v = true -> cols_eq (opd_unscaled v) (opd_raw v).
 Proof.
   unfold opd_params_ok, opd_unscaled, opd_raw, opd_cols. destruct (o_bv v) as [p|]; intros H; [|apply cols_eq_refl].
   now apply map2_from_numpy_unscale.
 Qed.
+Lemma part_unscaled_raw q : params_ok (p_cols q) (p_prm q) = true -> cols_eq (part_unscaled q) (p_cols q).
+Proof. intros H. unfold part_unscaled, part_cols. now apply map2_from_numpy_unscale. Qed.
 
-(** one copy-on-manipulation step: the source (unscale, list operation, from_numpy) and the raw-level specification fail together
-    or succeed together, and then the new matrix stands for the specified raw values and labels *)
-Lemma step_sound b o p r : op_copy o = true -> raw_equiv r (unscale b) -> step_ok b o p = true ->
-  orel (fun r' b' => raw_equiv r' (unscale b')) (raw_step opd_raw r o) (step b o p).
+(** one step of ANY taxa-axis operation (copy-on-manipulation, in place, concat_taxa): the source (unscale, list operation,
+    re-standardise) and the raw-level specification fail together or succeed together, and then the new matrix stands for
+    the specified raw values and labels *)
+Lemma step_sound b o p r : raw_equiv r (unscale b) -> step_ok b o p = true ->
+  orel (fun r' b' => raw_equiv r' (unscale b')) (raw_step opd_raw p_cols r o) (step b o p).
 Proof.
-  intros Hc He Hok.
-  assert (Hs : step b o p = match raw_step opd_unscaled (unscale b) o with Some r2 => from_numpy r2 p | None => None end)
-    by (destruct o; try discriminate; reflexivity).
-  rewrite Hs. unfold step_ok in Hok. apply andb_prop in Hok as [Hov Hok].
-  assert (Hp : match raw_step opd_unscaled (unscale b) o with Some r2 => params_ok (r_cols r2) p | None => true end = true)
-    by (destruct o; try discriminate; exact Hok).
+  intros He Hok. unfold step. unfold step_ok in Hok.
+  apply andb_prop in Hok as [Hok Hp]. apply andb_prop in Hok as [Hov Hoq].
   assert (Hvals : forall v, op_operand o = Some v -> cols_eq (opd_raw v) (opd_unscaled v)).
   { intros v Hv. rewrite Hv in Hov. apply cols_eq_sym. now apply opd_unscaled_raw. }
-  pose proof (raw_step_rel opd_raw opd_unscaled r (unscale b) o Hc He Hvals) as Hr.
-  destruct (raw_step opd_raw r o) as [r1|] eqn:E1, (raw_step opd_unscaled (unscale b) o) as [r2|] eqn:E2; cbn in Hr; try contradiction; [|exact I].
-  pose proof (raw_step_labels_ok _ _ _ _ Hc E2) as Hl.
-  destruct (from_numpy_some r2 p Hl Hp) as [b' Hb']. rewrite Hb'. cbn.
-  eapply raw_equiv_trans; [exact Hr|]. apply raw_equiv_sym. eapply from_numpy_unscale; eassumption.
+  assert (Hparts : forall q, In q (op_parts o) -> cols_eq (p_cols q) (part_unscaled q)).
+  { intros q Hq. apply cols_eq_sym. apply part_unscaled_raw. rewrite forallb_forall in Hoq. now apply Hoq. }
+  pose proof (raw_step_rel opd_raw opd_unscaled p_cols part_unscaled r (unscale b) o He Hvals Hparts) as Hr.
+  destruct (raw_step opd_raw p_cols r o) as [r1|] eqn:E1, (raw_step opd_unscaled part_unscaled (unscale b) o) as [r2|] eqn:E2; cbn in Hr; try contradiction; [|exact I].
+  destruct (restd_some r2 p Hp) as [b' Hb']. rewrite Hb'. cbn.
+  eapply raw_equiv_trans; [exact Hr|]. apply raw_equiv_sym. eapply restd_unscale; eassumption.
 Qed.
 
-(** every history of select / delete / insert / adjoin *)
+(** every history of taxa-axis operations *)
 Lemma ops_preserve_raw (ops : list (op * list prm)) : forall (b : bv) (r : rawst),
-  raw_equiv r (unscale b) -> forallb (fun x => op_copy (fst x)) ops = true -> run_ok b ops = true ->
+  raw_equiv r (unscale b) -> run_ok b ops = true ->
   raw_equiv (run_spec r (map fst ops)) (unscale (run b ops)).
 Proof.
-  induction ops as [|[o p] t IH]; intros b r He Hc Hok; cbn in *; [exact He|].
-  apply andb_prop in Hc as [Hc Hct]. apply andb_prop in Hok as [Hok Hokt].
-  pose proof (step_sound b o p r Hc He Hok) as Hs. unfold run_spec in *. cbn [fold_left]. unfold spec_step at 2.
-  destruct (raw_step opd_raw r o) as [r'|], (step b o p) as [b'|]; cbn in Hs; try contradiction; now apply IH.
+  induction ops as [|[o p] t IH]; intros b r He Hok; cbn in *; [exact He|].
+  apply andb_prop in Hok as [Hok Hokt].
+  pose proof (step_sound b o p r He Hok) as Hs. unfold run_spec in *. cbn [fold_left]. unfold spec_step at 2.
+  destruct (raw_step opd_raw p_cols r o) as [r'|], (step b o p) as [b'|]; cbn in Hs; try contradiction; now apply IH.
 Qed.
 
 (** starting point of a history: the matrix built by from_numpy stands for its raw input *)
 Lemma history_preserves_raw (r0 : rawst) (p0 : list prm) (b0 : bv) (ops : list (op * list prm)) :
-  from_numpy r0 p0 = Some b0 -> params_ok (r_cols r0) p0 = true ->
-  forallb (fun x => op_copy (fst x)) ops = true -> run_ok b0 ops = true ->
+  from_numpy r0 p0 = Some b0 -> params_ok (r_cols r0) p0 = true -> run_ok b0 ops = true ->
   raw_equiv (run_spec r0 (map fst ops)) (unscale (run b0 ops)).
 Proof.
-  intros Hb Hp Hc Hok. apply ops_preserve_raw; auto. apply raw_equiv_sym. eapply from_numpy_unscale; eassumption.
+  intros Hb Hp Hok. apply ops_preserve_raw; auto. apply raw_equiv_sym. eapply from_numpy_unscale; eassumption.
 Qed.
 
-(** * the in-place remove_taxa keeps the raw values of the retained taxa (but not the location: see below) *)
+(** after every successful step the location / scale of the matrix are the ones accepted for the raw values it stands for
+    (nothing is stale: the in-place operations and concat_taxa re-standardise like the copy-on-manipulation ones) *)
+Lemma step_params_fresh b o p b' r : step b o p = Some b' -> raw_step opd_unscaled part_unscaled (unscale b) o = Some r ->
+  map (fun c => (cloc c, csc c)) (bcols b') = firstn (length (r_cols r)) p /\ length (r_cols r) = length p.
+Proof.
+  unfold step. intros Hs Hr. rewrite Hr in Hs. unfold restd in Hs.
+  destruct (Nat.eqb (length (r_cols r)) (length p)) eqn:El; [|discriminate]. apply Nat.eqb_eq in El.
+  injection Hs as <-. cbn [bcols]. split; [|exact El].
+  rewrite El, firstn_all. revert p El. generalize (r_cols r). intros cs.
+  induction cs as [|c tc IH]; intros [|[l s] tp] El; cbn in *; try discriminate; [reflexivity|].
+  f_equal. apply IH. congruence.
+Qed.
+
+(** * FORMER code ([old_step], [old_c_mean]): what was wrong before the repairs — regression witnesses *)
+(** the former in-place remove_taxa kept the raw values of the retained taxa (but not the location: see below) *)
 Lemma drop_ix_map {A B} (g : A -> B) i ks xs : drop_ix i ks (map g xs) = map g (drop_ix i ks xs).
 Proof. revert i; induction xs as [|x t IH]; intros i; cbn; [reflexivity|]. destruct (existsb (Nat.eqb i) ks); cbn; now rewrite IH. Qed.
 Lemma delete_any_map {A B} (g : A -> B) xs o : delete_any (map g xs) o = omap (map g) (delete_any xs o).
@@ -571,11 +645,11 @@ Proof.
   revert r; induction l as [|a t IH]; intros r; cbn; [intros [= <-]; constructor|].
   destruct (f a) eqn:E; [|discriminate]. destruct (all_some (map f t)) eqn:E2; cbn; [|discriminate]. intros [= <-]. constructor; auto.
 Qed.
-Lemma remove_preserves_raw (b b' : bv) (ob : idx) (p : list prm) : step b (ORemove ob) p = Some b' ->
+Lemma old_remove_preserves_raw (b b' : bv) (ob : idx) (p : list prm) : old_step b (ORemove ob) p = Some b' ->
   Forall2 (fun c c' => delete_any (col_unscale c) ob = Some (col_unscale c') /\ cloc c' = cloc c /\ csc c' = csc c) (bcols b) (bcols b')
   /\ olabels (fun l => delete_any l ob) (btaxa b) = Some (btaxa b') /\ olabels (fun l => delete_any l ob) (bgrp b) = Some (bgrp b').
 Proof.
-  cbn [step]. unfold map_cols. rewrite map_map.
+  cbn [old_step]. unfold map_cols. rewrite map_map.
   destruct (all_some (map (fun x => delete_any (cdat x) ob) (bcols b))) as [ds|] eqn:E; [|discriminate].
   destruct (olabels _ (btaxa b)) as [t|]; [|discriminate]. destruct (olabels _ (bgrp b)) as [g|]; [|discriminate].
   destruct (new_n _ (bn b)); [|discriminate]. intros [= <-]. cbn. split; [|split; reflexivity].
@@ -583,7 +657,7 @@ Proof.
   split; [now apply remove_col|split; reflexivity].
 Qed.
 
-(** * refutations by witness: the inherited in-place append_taxa / incorp_taxa and concat_taxa do not preserve raw values *)
+(** refutations by witness: the inherited in-place append_taxa / incorp_taxa and concat_taxa did not preserve raw values *)
 Lemma coleq_eqb a b : coleq a b -> list_eqb oexact a b = true.
 Proof.
   induction 1 as [|x y tx ty Hxy _ IH]; cbn; [reflexivity|]. rewrite IH, andb_true_r.
@@ -596,68 +670,64 @@ Definition wit_raw : rawst := mkraw [[Some 0; Some 2; Some 2; Some 0]] 4 None No
 Definition wit_prm : list prm := [(Some 1, Some 1)].
 Definition wit_nd : operand := mkopd [[Some 10]] 1 None true None None None None.
 
-Lemma append_refuted : exists r p b v b' r',
-  from_numpy r p = Some b /\ params_ok (r_cols r) p = true /\ step b (OAppend v) [] = Some b' /\
-  raw_step opd_raw (unscale b) (OAppend v) = Some r' /\ ~ raw_equiv r' (unscale b').
+Lemma old_append_refuted : exists r p b v b' r',
+  from_numpy r p = Some b /\ params_ok (r_cols r) p = true /\ old_step b (OAppend v) [] = Some b' /\
+  raw_step opd_raw p_cols (unscale b) (OAppend v) = Some r' /\ ~ raw_equiv r' (unscale b').
 Proof.
   exists wit_raw, wit_prm. eexists. exists wit_nd. eexists. eexists.
   split; [reflexivity|]. split; [vm_compute; reflexivity|]. split; [reflexivity|]. split; [reflexivity|].
   intros (H & _). apply cols_eq_eqb in H. vm_compute in H. discriminate H.
 Qed.
-Lemma incorp_refuted : exists r p b v b' r',
-  from_numpy r p = Some b /\ params_ok (r_cols r) p = true /\ step b (OIncorp (IInt 0) v) [] = Some b' /\
-  raw_step opd_raw (unscale b) (OIncorp (IInt 0) v) = Some r' /\ ~ raw_equiv r' (unscale b').
+Lemma old_incorp_refuted : exists r p b v b' r',
+  from_numpy r p = Some b /\ params_ok (r_cols r) p = true /\ old_step b (OIncorp (IInt 0) v) [] = Some b' /\
+  raw_step opd_raw p_cols (unscale b) (OIncorp (IInt 0) v) = Some r' /\ ~ raw_equiv r' (unscale b').
 Proof.
   exists wit_raw, wit_prm. eexists. exists wit_nd. eexists. eexists.
   split; [reflexivity|]. split; [vm_compute; reflexivity|]. split; [reflexivity|]. split; [reflexivity|].
   intros (H & _). apply cols_eq_eqb in H. vm_compute in H. discriminate H.
 Qed.
 Definition wit_part : part := mkpart [[Some 10; Some 30]] 2 [(Some 20, Some 10)] None None.
-Lemma concat_refuted : exists r p b q b' r',
+Lemma old_concat_refuted : exists r p b q b' r',
   from_numpy r p = Some b /\ params_ok (r_cols r) p = true /\ params_ok (p_cols q) (p_prm q) = true /\
-  step b (OConcat true [] [q]) [] = Some b' /\
-  raw_step opd_raw (unscale b) (OConcat true [] [q]) = Some r' /\ ~ raw_equiv r' (unscale b').
+  old_step b (OConcat true [] [q]) [] = Some b' /\
+  raw_step opd_raw p_cols (unscale b) (OConcat true [] [q]) = Some r' /\ ~ raw_equiv r' (unscale b').
 Proof.
   exists wit_raw, wit_prm. eexists. exists wit_part. eexists. eexists.
   split; [reflexivity|]. split; [vm_compute; reflexivity|]. split; [vm_compute; reflexivity|]. split; [reflexivity|]. split; [reflexivity|].
   intros (H & _). apply cols_eq_eqb in H. vm_compute in H. discriminate H.
 Qed.
 (** the subclasses cannot concatenate at all *)
-Lemma concat_subclass_fails b before after p : step b (OConcat false before after) p = None.
+Lemma old_concat_subclass_fails b before after p : old_step b (OConcat false before after) p = None.
 Proof. reflexivity. Qed.
 (** after remove_taxa the location is no longer the mean of the raw values the matrix stands for *)
-Lemma remove_stale_refuted : exists r p b b',
-  from_numpy r p = Some b /\ params_ok (r_cols r) p = true /\ step b (ORemove (IInt 0)) [] = Some b' /\
+Lemma old_remove_stale_refuted : exists r p b b',
+  from_numpy r p = Some b /\ params_ok (r_cols r) p = true /\ old_step b (ORemove (IInt 0)) [] = Some b' /\
   params_ok (r_cols (unscale b')) (map (fun c => (cloc c, csc c)) (bcols b')) = false.
 Proof.
   exists wit_raw, wit_prm. eexists. eexists.
   split; [reflexivity|]. split; [vm_compute; reflexivity|]. split; [reflexivity|]. vm_compute. reflexivity.
 Qed.
-(** tmean(unscale=True) is the only NaN-aware summary: finite while maximum (and all others) of the same trait are NaN *)
-Lemma tmean_nan_refuted : exists raw l s, loc_ok raw l = true /\ sc_ok raw s = true /\
-  c_max true (col_from_numpy raw l s) = Some None /\ np_mean raw = None /\ c_mean true (col_from_numpy raw l s) = Some (Some 2).
+(** the former tmean(unscale=True) was the only NaN-aware summary: finite while maximum (and all others) of the same trait are NaN *)
+Lemma old_tmean_nan_refuted : exists raw l s, loc_ok raw l = true /\ sc_ok raw s = true /\
+  c_max true (col_from_numpy raw l s) = Some None /\ np_mean raw = None /\ old_c_mean true (col_from_numpy raw l s) = Some (Some 2).
 Proof.
   exists [Some 1; None; Some 3], (Some 2), (Some 1). repeat split; vm_compute; reflexivity.
 Qed.
 
-(** * guarded versions: what does hold for the in-place append and for concat_taxa *)
-(** appending the stored values of a matrix that has the same location and (non-zero) scale *)
-Lemma append_same_params_col (c : tcol) (w : list oq) (l s : Q) : cloc c = Some l -> csc c = Some s -> ~ s == 0 ->
-  coleq (col_unscale (mkcol (cdat c ++ cdat (col_from_numpy w (Some l) (Some s))) (cloc c) (csc c))) (col_unscale c ++ w).
+(** ... and the repaired code on the same witnesses: the raw values are preserved (instances of [step_sound]) *)
+Lemma new_witnesses_preserved :
+  (exists b b' r', from_numpy wit_raw wit_prm = Some b /\ step b (OAppend wit_nd) [(Some (14 # 5), Some 4)] = Some b' /\
+     raw_step opd_raw p_cols (unscale b) (OAppend wit_nd) = Some r' /\ raw_equiv r' (unscale b'))
+  /\ (exists b b' r', from_numpy wit_raw wit_prm = Some b /\ step b (OConcat true [] [wit_part]) [(Some (22 # 3), Some 11)] = Some b' /\
+     raw_step opd_raw p_cols (unscale b) (OConcat true [] [wit_part]) = Some r' /\ raw_equiv r' (unscale b'))
+  /\ c_mean true (col_from_numpy [Some 1; None; Some 3] (Some 2) (Some 1)) = Some None.
 Proof.
-  intros Hl Hs Hnz. unfold col_unscale. cbn [cdat cloc csc]. rewrite map_app. apply Forall2_app; [apply coleq_refl|].
-  rewrite Hl, Hs. apply (unscale_from_numpy_some w l s Hnz).
-Qed.
-(** a column stored with location 0 and scale 1 is its own raw column *)
-Lemma zero_one_unscale (c : list oq) : coleq (col_unscale (zero_one c)) c.
-Proof.
-  unfold col_unscale, zero_one; cbn [cdat cloc csc]. induction c as [|[v|] t IH]; cbn [map]; constructor; auto.
-  unfold oadd, omul, olift2, oeq. rewrite !Qred_correct. ring. exact I.
-Qed.
-Lemma from_numpy_zero_one (w : list oq) : coleq (cdat (col_from_numpy w (Some 0) (Some 1))) w.
-Proof.
-  cbn [cdat col_from_numpy]. induction w as [|[v|] t IH]; cbn [map]; constructor; auto.
-  unfold oinv, osub, omul, olift2, oeq. rewrite !Qred_correct. field. exact I.
+  split; [|split].
+  - eexists. eexists. eexists. split; [reflexivity|]. split; [vm_compute; reflexivity|]. split; [vm_compute; reflexivity|].
+    repeat split. cbn. constructor; [|constructor]. repeat constructor; vm_compute; reflexivity.
+  - eexists. eexists. eexists. split; [reflexivity|]. split; [vm_compute; reflexivity|]. split; [vm_compute; reflexivity|].
+    repeat split. cbn. constructor; [|constructor]. repeat constructor; vm_compute; reflexivity.
+  - vm_compute. reflexivity.
 Qed.
 
 (** * DenseScaledMatrix *)
